@@ -208,4 +208,81 @@ theorem lget_rep : ∀ (f : Nat) (l : LNode) (t : Node) (p : Path), LRep H S l t
           · exact hc j
         · simp [h2 hn]
 
+theorem getProof_slot (v : Option Val) : getProof H (slotNode v) [] = v.map fun w => [encLeaf w] := by
+  cases v <;> rfl
+
+/-- GetProof on the in-memory trie returns exactly the proof of the represented trie (the same byte
+strings: a loaded node encodes as the node it stands for), and the root it leaves behind represents
+the same trie. -/
+theorem lgetProof_rep : ∀ (f : Nat) (l : LNode) (t : Node) (p : Path), LRep H S l t → need l t ≤ f →
+    (∀ ps, getProof H t p = some ps → ∃ l', lgetProof H S f l p = some (l', ps) ∧ LRep H S l' t) ∧
+    (getProof H t p = none → lgetProof H S f l p = none) := by
+  intro f
+  induction f with
+  | zero => intro l t _ _ hf; have := need_pos l t; omega
+  | succ f ih =>
+    intro l t p hr hf
+    cases l with
+    | empty => simp [LRep] at hr; subst hr; simp [getProof, lgetProof]
+    | hash h =>
+      obtain ⟨hres, hr'⟩ := rep_hash hr
+      simp only [lgetProof, hres]
+      exact ih _ t p hr' (need_hash hf)
+    | leaf w =>
+      simp [LRep] at hr; subst hr
+      cases p with
+      | nil => simp [getProof, lgetProof, LRep]
+      | cons a p => simp [getProof, lgetProof]
+    | ext k n =>
+      have he := (lenc_rep _ _ hr).2 rfl
+      obtain ⟨m, rfl, hm⟩ := hr
+      simp only [getProof, lgetProof]
+      cases hs : stripPre k p with
+      | none => simp
+      | some r =>
+        obtain ⟨h1, h2⟩ := ih n m r hm (need_ext hf)
+        refine ⟨fun ps hps => ?_, fun hn => ?_⟩
+        · cases hg : getProof H m r with
+          | none => simp [hg] at hps
+          | some qs =>
+            simp [hg] at hps; subst hps
+            obtain ⟨n', hg', hn'⟩ := h1 qs hg
+            exact ⟨.ext k n', by simp [hg', he], ⟨m, rfl, hn'⟩⟩
+        · cases hg : getProof H m r with
+          | none => simp [h2 hg]
+          | some qs => simp [hg] at hn
+    | branch ls lv =>
+      have he := (lenc_rep _ _ hr).2 rfl
+      obtain ⟨cs, v, rfl, hc, hv⟩ := hr
+      cases p with
+      | nil =>
+        obtain ⟨h1, h2⟩ := ih lv (slotNode v) [] hv (need_slot hf)
+        rw [getProof_slot] at h1 h2
+        simp only [lgetProof]
+        cases v with
+        | none => simp [getProof, h2 rfl]
+        | some w =>
+          obtain ⟨lv', hg, hlv'⟩ := h1 [encLeaf w] rfl
+          simp only [getProof]
+          exact ⟨fun ps hps => by
+            injection hps with hps; subst hps
+            exact ⟨.branch ls lv', by simp [hg, he], ⟨cs, some w, rfl, hc, hlv'⟩⟩, fun hn => by cases hn⟩
+      | cons i r =>
+        obtain ⟨h1, h2⟩ := ih (ls i) (cs i) r (hc i) (need_kid hf i)
+        simp only [getProof, lgetProof]
+        refine ⟨fun ps hps => ?_, fun hn => ?_⟩
+        · cases hg : getProof H (cs i) r with
+          | none => simp [hg] at hps
+          | some qs =>
+            simp [hg] at hps; subst hps
+            obtain ⟨c', hg', hc'⟩ := h1 qs hg
+            refine ⟨.branch (lupd ls i c') lv, by simp [hg', he], ⟨cs, v, rfl, fun j => ?_, hv⟩⟩
+            unfold lupd; split
+            · next e => subst e; exact hc'
+            · exact hc j
+        · cases hg : getProof H (cs i) r with
+          | none => simp [h2 hg]
+          | some qs => simp [hg] at hn
+
+
 end NeoModel.Mpt
